@@ -15,7 +15,7 @@ use in_toto::models::byproducts::ByProducts;
 use in_toto::models::inspection::Inspection;
 use in_toto::models::rule::{Artifact, ArtifactRule};
 use in_toto::models::{LinkMetadataBuilder, Metablock, MetablockBuilder, MetadataWrapper};
-use ring::signature::{EcdsaKeyPair, Ed25519KeyPair, KeyPair, RsaKeyPair, ECDSA_P256_SHA256_ASN1_SIGNING, RSA_PSS_SHA256};
+use ring::signature::{EcdsaKeyPair, Ed25519KeyPair, RsaKeyPair, ECDSA_P256_SHA256_ASN1_SIGNING, RSA_PSS_SHA256};
 use serde_json::{json, Value};
 
 use crate::keys;
@@ -134,7 +134,16 @@ fn check_signed_bytes(acc: &mut Acc, meta: &MetadataWrapper, field: &str, s: &st
         return;
     };
     let expect = util::hex(ring_ed.sign(&reference).as_ref());
-    let witness = |via: &str| json!({"doc": doc, "field": field, "string": s, "string_escaped": format!("{s:?}"), "via": via});
+    let witness = |via: &str| {
+        if s.len() > 300 {
+            json!({"doc": doc, "field": field, "string_head": s.chars().take(40).collect::<String>(), "string_len": s.len(), "string_sha256": util::hex(&util::sha256(s.as_bytes())), "via": via})
+        } else {
+            json!({"doc": doc, "field": field, "string": s, "string_escaped": format!("{s:?}"), "via": via})
+        }
+    };
+    // call history: the other (escaped) encoding style of the same value runs first on this
+    // thread; the signed bytes must not depend on it
+    let _ = guard(|| <in_toto::interchange::Json as in_toto::interchange::DataInterchange>::canonicalize(&signed_value).map(|_| ()).unwrap_or(()));
     for via in ["Metablock::new", "builder"] {
         acc.evaluations += 1;
         let mb = match guard(|| {
@@ -269,6 +278,66 @@ fn check_keyids(acc: &mut Acc) {
     }
 }
 
+/// The layout and links shipped with the repository were produced and RSA-PSS-signed by Python
+/// in-toto (the reference implementation). Each must parse, and its signature must be accepted for
+/// the key the reference filed it under - with the key taken from the key table of the parsed layout
+/// (functionaries) or from the PEM file of the owner.
+fn check_reference_documents(acc: &mut Acc) {
+    let docs: [(&str, &str); 4] = [
+        ("root.layout", include_str!("../../../fixtures/pyref/root.layout")),
+        ("clone.776a00e2.link", include_str!("../../../fixtures/pyref/links/clone.776a00e2.link")),
+        ("update-version.776a00e2.link", include_str!("../../../fixtures/pyref/links/update-version.776a00e2.link")),
+        ("package.2f89b927.link", include_str!("../../../fixtures/pyref/links/package.2f89b927.link")),
+    ];
+    let witness = |name: &str| json!({"kind": "reference-document", "document": name});
+    let owner = match guard(|| PublicKey::from_pem_spki(keys::ALICE_PUB_PEM, SignatureScheme::RsaSsaPssSha256)) {
+        Guard::Done(Ok(k)) => k,
+        _ => {
+            acc.violation("reference-document:owner-key-unreadable", "the PEM public key of the owner of the reference demo cannot be imported", || witness("alice.pub"));
+            return;
+        }
+    };
+    let mut table: Vec<PublicKey> = vec![owner];
+    for (name, text) in docs {
+        acc.evaluations += 1;
+        acc.nontrivial += 1;
+        let mb: Metablock = match guard(|| serde_json::from_str::<Metablock>(text)) {
+            Guard::Done(Ok(mb)) => mb,
+            Guard::Done(Err(e)) => {
+                acc.violation("reference-document:unparseable", &format!("a document written by the reference implementation does not parse: {e}"), || witness(name));
+                continue;
+            }
+            Guard::Panicked(l, m) => {
+                acc.violation(&format!("panic:{l}"), &format!("parsing a reference document panicked: {m}"), || witness(name));
+                continue;
+            }
+        };
+        let raw: Value = serde_json::from_str(text).unwrap();
+        if let MetadataWrapper::Layout(l) = &mb.metadata {
+            let n_raw = raw["signed"]["keys"].as_object().map(|o| o.len()).unwrap_or(0);
+            if l.keys.len() != n_raw {
+                acc.violation("reference-document:key-table-entries-lost", &format!("the reference layout lists {n_raw} functionary keys, the parsed layout has {}", l.keys.len()), || witness(name));
+            }
+            table.extend(l.keys.values().cloned());
+        }
+        for s in raw["signatures"].as_array().cloned().unwrap_or_default() {
+            let id = s["keyid"].as_str().unwrap_or("");
+            let Some(key) = table.iter().find(|k| serde_json::to_value(k.key_id()).ok().and_then(|v| v.as_str().map(|x| x == id)).unwrap_or(false)) else {
+                acc.violation("reference-document:signer-not-in-key-table", &format!("no imported key has the id {id} the reference signed under"), || witness(name));
+                continue;
+            };
+            match guard(|| mb.verify(1, [key])) {
+                Guard::Done(Ok(_)) => acc.outcome("reference-document-accepted"),
+                Guard::Done(Err(e)) => {
+                    acc.outcome("reference-document-rejected");
+                    acc.violation("reference-document:signature-rejected", &format!("a signature made by the reference implementation over its own document is rejected: {e:?}"), || witness(name));
+                }
+                Guard::Panicked(l, m) => acc.violation(&format!("panic:{l}"), &format!("verify panicked: {m}"), || witness(name)),
+            }
+        }
+    }
+}
+
 pub fn crit_strings(k: usize) -> Vec<String> {
     util::strings_upto(&['\\', '"', 'n', '\n', 'a'], k)
 }
@@ -378,6 +447,46 @@ pub fn run(tier: Tier) -> i32 {
             }
         }
     }
+    // (B2) structure instead of strings: the value families of C16 (artifact shapes incl. sha512
+    // and empty digests, environments, byproduct members with negative / extreme return values,
+    // commands, every rule form, thresholds 0 / 1 / u32::MAX, key tables)
+    {
+        let mut docs: Vec<(String, MetadataWrapper)> = vec![];
+        for (n, l) in crate::props::c16::links(false) {
+            if !n.contains("other-field-named") && !n.starts_with("field:") && !n.starts_with("name:") {
+                docs.push((format!("link/{n}"), MetadataWrapper::Link(l)));
+            }
+        }
+        for (n, l) in crate::props::c16::layouts(false) {
+            if !n.starts_with("field:") {
+                docs.push((format!("layout/{n}"), MetadataWrapper::Layout(l)));
+            }
+        }
+        let accs = util::par_fold(&docs, || (Acc::new(), Ed25519KeyPair::from_pkcs8(keys::ED_PK8[0]).unwrap()), |(acc, ring_ed), _i, (n, m)| {
+            acc.nontrivial += 1;
+            check_signed_bytes(acc, m, "structure", n, if n.starts_with("link") { "link-structure" } else { "layout-structure" }, ring_ed);
+        });
+        acc.merge(Acc::merge_all(accs.into_iter().map(|(a, _)| a).collect()));
+        acc.note_n("structural_documents", docs.len() as u64);
+    }
+    // (B3) long strings (captured output is the motivating case): 15..4097 characters with an
+    // escaping-relevant character at the start / middle / end / every second position
+    {
+        let long: Vec<String> = crate::props::c10::long_strings().into_iter().filter(|s| s.chars().count() <= if tier.thorough() { 70001 } else { 4097 }).collect();
+        let accs = util::par_fold(&long, || (Acc::new(), Ed25519KeyPair::from_pkcs8(keys::ED_PK8[0]).unwrap()), |(acc, ring_ed), i, s| {
+            acc.nontrivial += 1;
+            check_signed_bytes(acc, &link_with("stdout", s), "stdout", s, "link", ring_ed);
+            if i % 3 == 0 {
+                check_signed_bytes(acc, &layout_with("readme", s), "readme", s, "layout", ring_ed);
+                check_signed_bytes(acc, &link_with("env-key", s), "env-key", s, "link", ring_ed);
+            }
+        });
+        acc.merge(Acc::merge_all(accs.into_iter().map(|(a, _)| a).collect()));
+        acc.note_n("long_strings", long.len() as u64);
+    }
+    // (D) documents made and signed by the Python reference implementation, through the
+    // parser of the library and Metablock::verify
+    check_reference_documents(&mut acc);
     // (C) other C0 controls and a few long captured-output shapes in the output fields
     let extra = ["\t", "\r\n", "\u{8}", "\u{c}", "\u{0}", "\u{1f}", "\u{7f}", "a\tb\r\nc\\nd\"e", "line1\nline2\n", "C:\\new\\table", "\\\\n", "\\\n"];
     let ring_ed = Ed25519KeyPair::from_pkcs8(keys::ED_PK8[0]).unwrap();
@@ -391,7 +500,7 @@ pub fn run(tier: Tier) -> i32 {
     }
     c.acc = acc;
     c.rule = format!(
-        "(A) every scalar of the tier's set as the whole `name` of a link (stdout / readme on a subset); (B) every string of length <= {k} over {{\\, \", n, LF, a}} in each of {} link fields and {} layout fields, via Metablock::new and via the builder, plus reference-made Ed25519/ECDSA/RSA signatures fed to verify; (C) C0 controls and captured-output shapes in every field; key ids of all fixture keys and hash-algorithm-list variants. distinct_nontrivial = scalars + (field, string) pairs + key-id cases",
+        "(A) every scalar of the tier's set as the whole `name` of a link (stdout / readme on a subset); (B) every string of length <= {k} over {{\\, \", n, LF, a}} in each of {} link fields and {} layout fields, via Metablock::new and via the builder, plus reference-made Ed25519/ECDSA/RSA signatures fed to verify; (B2) the structural value families of C16 (digest shapes, negative / extreme numbers, every rule form, key tables); (B3) strings of 15..4097 (70001) characters in stdout / readme / an environment name; (D) the four Python-made, Python-signed documents through the parser of the library and Metablock::verify; before every signing the escaped canonical form of the same value is computed on the same thread (no influence allowed); (C) C0 controls and captured-output shapes in every field; key ids of all fixture keys and hash-algorithm-list variants. distinct_nontrivial = scalars + (field, string) pairs + key-id cases",
         LINK_FIELDS.len(),
         LAYOUT_FIELDS.len()
     );
@@ -403,6 +512,10 @@ pub fn run(tier: Tier) -> i32 {
 
 pub fn replay(case: &Value) -> Value {
     let mut acc = Acc::new();
+    if case["kind"] == "reference-document" {
+        check_reference_documents(&mut acc);
+        return json!({"violation": acc.violations.keys().next()});
+    }
     if case["kind"] == "keyid" {
         check_keyids(&mut acc);
         return json!({"violation": acc.violations.keys().next()});
